@@ -702,8 +702,14 @@ func lockingHistory(r *Rng, st *Stats, mask, focus string, blocks int, ci int) (
 				thC = append(thC, cTuple(cNb(new(big.Int).SetBytes(t.Bytes())), cZ(th)))
 			}
 			var createdNow []int
+			curVals := dumpLockingVals(e)
 			for vi, v := range vals {
-				if (!created[vi] && (r.Chance(35) || vi == 0)) || r.Chance(2) {
+				// a second create request for a validator that exited (Inactive): its record must survive it
+				again := created[vi] && curVals[string(v.Addr.Bytes())].Status == lockingtypes.Inactive && r.Chance(12)
+				if again {
+					st.Count("create-request-for-an-exited-validator")
+				}
+				if (!created[vi] && (r.Chance(35) || vi == 0)) || r.Chance(2) || again {
 					claimed := v.Addr
 					if r.Chance(1) && vi != 0 {
 						claimed = vals[(vi+1)%len(vals)].Addr
